@@ -15,6 +15,7 @@ import json
 import math
 
 from harness import common as C
+from harness.props import c08_tok
 
 ALPHABET = ['a', 'B', '1', '_', '-', '.', '[', ']', "'", '"', '\\', ' ']
 STR_FNS = ['snake', 'lisp', 'camel', 'pascal', 'normalize', 'possible_keys']
@@ -164,6 +165,12 @@ def run(ctx: C.Ctx):
         s = ''.join(rng.choice(pool) for _ in range(rng.randint(5, 18)))
         for fn in ('snake', 'lisp', 'camel', 'pascal', 'normalize', 'possible_keys', 'path', 'int', 'isfloat'):
             add(fn, s)
+    # token-grammar paths (long paths; quoted components followed by bare true/false/int components)
+    tokpaths = []
+    for k in range(ctx.quick(6000, 60000)):
+        text, expected, tags = c08_tok.gen_path(rng, 1, 8, force_reset=(k % 3 == 0))
+        tokpaths.append((text, expected, tags))
+        add('path', text)
     # canonical names in every casing
     names = []
     for _ in range(ctx.quick(400, 4000)):
@@ -232,6 +239,23 @@ def run(ctx: C.Ctx):
             ctx.fail('oracle:path', dict(components=[_comp(c) for c in comps], text=txt),
                      f'split_object_path({txt!r}) = {got!r}, expected {comps!r}')
 
+    # token grammar: the reference denotation of every well-formed token list
+    for text, expected, tags in tokpaths:
+        if expected is None:
+            continue
+        ctx.seen('oracle:tokpath', text, nontrivial=len(expected) > 1)
+        got = split_object_path(text)
+        if not _same_comps(got, expected):
+            key = _tokpath_key(text, got, expected)
+            if key is not None:
+                # a handful per known-finding class: they must never crowd a new failure out of the bounded list
+                kc = ctx.notes.setdefault('tokpath_keyed_failures', {})
+                kc[key] = kc.get(key, 0) + 1
+                if kc[key] > 5:
+                    continue
+            ctx.fail('oracle:tokpath', dict(components=[_comp(c) for c in expected], text=text, tags=tags),
+                     f'split_object_path({text!r}) = {got!r}, the syntax denotes {expected!r}', key=key)
+
     try:
         from harness.props import c08_e2e
     except ImportError:
@@ -240,11 +264,23 @@ def run(ctx: C.Ctx):
         c08_e2e.run(ctx)
 
 
+def _tokpath_key(text, got, expected):
+    """known-finding attribution: inside a quoted component a backslash directly before `.` or `[` is not
+    kept in place (the separator branch of the tokenizer runs before the pending-escape branch, so the
+    backslash is emitted after the separator character, or swallows the closing quote)."""
+    import re
+    if re.search(r'\\[.\[]', text):
+        return 'path-backslash-before-separator-in-quotes'
+    return None
+
+
 def _same_comps(a, b):
     if len(a) != len(b):
         return False
     for x, y in zip(a, b):
-        if type(x) is not type(y) or x != y:
+        if type(x) is not type(y):
+            return False
+        if x != y and not (isinstance(x, float) and math.isnan(x) and math.isnan(y)):
             return False
     return True
 
@@ -260,7 +296,7 @@ def replay(obj):
     if kind == 'oracle:auto-keys':
         c = set(possible_json_keys(case['name'])) | {case['name']}
         return dict(violated=case['key'] not in c, candidates=sorted(c))
-    if kind == 'oracle:path':
+    if kind in ('oracle:path', 'oracle:tokpath'):
         got = split_object_path(case['text'])
         return dict(violated=[_comp(c) for c in got] != case['components'], got=[_comp(c) for c in got],
                     expected=case['components'])
